@@ -469,6 +469,20 @@ fn fn_shapes(path: &str) -> Value {
                 syn::Item::Fn(f) => {
                     do_fn(out, "", None, &f.attrs, &f.sig, &f.block);
                 }
+                syn::Item::Trait(t) => {
+                    // the methods a trait declares (impl = "trait:<Name>"); a method without a
+                    // default body has an empty first statement
+                    if cfg_excluded(&t.attrs) {
+                        continue;
+                    }
+                    let ctx = format!("trait:{}", t.ident);
+                    for it in &t.items {
+                        if let syn::TraitItem::Fn(f) = it {
+                            let empty = syn::Block { brace_token: Default::default(), stmts: vec![] };
+                            do_fn(out, &ctx, None, &f.attrs, &f.sig, f.default.as_ref().unwrap_or(&empty));
+                        }
+                    }
+                }
                 syn::Item::Mod(m) => {
                     if cfg_excluded(&m.attrs) {
                         continue;
@@ -570,6 +584,8 @@ fn main() {
         "src/lib.rs",
         "src/overlayfs/mod.rs",
         "src/overlayfs/sync_io.rs",
+        "src/api/filesystem/sync_io.rs",
+        "src/api/filesystem/async_io.rs",
     ] {
         shapes.insert(f.to_string(), fn_shapes(&format!("{}/{}", repo, f)));
     }
